@@ -120,8 +120,11 @@ def cases(draw, dag=False):
             apply_ref(G, op)
             gsim.assign((tup(sid), name, tuple(full)), op[4])
         elif k == 7 and full is not None and None not in full:
-            hist.append(["clear_at", sid, name, full])
-            apply_ref(G, hist[-1])
+            # (sometimes spelled with the defaulted arguments left out, as the query was)
+            spelled = list(args) if (len(args) < len(full) and list(full[:len(args)]) == list(args)
+                                     and draw(st.booleans())) else full
+            hist.append(["clear_at", sid, name, spelled])
+            apply_ref(G, ["clear_at", sid, name, full])
             gsim.discard((tup(sid), name, tuple(full)))
         elif k == 8:
             hist.append(["clear", sid, name])
@@ -297,7 +300,7 @@ def run_case(case):
             apply_ref(rm, op)
         elif k == "clear_at":
             gone = sim.discard(target)
-            apply_ref(rm, op)
+            apply_ref(rm, ["clear_at", op[1], op[2], list(target[2])])     # (the bound key, defaults filled in)
         elif k == "clear":
             sid = tup(op[1])
             els = [e for e in sim.held if e[0] == sid and e[1] == op[2] and e not in sim.inputs]
